@@ -290,6 +290,13 @@ open CellL in
 theorem cell_le_transitive (x y z : Str) (h1 : cellCmp x y ≠ .gt) (h2 : cellCmp y z ≠ .gt) : cellCmp x z ≠ .gt :=
   cellCmp_le_trans x y z h1 h2
 
+open CellL in
+/-- **ORDER BY over group rows compares the rows by a total order**: for every list of key positions and every list
+    of directions the row comparison is mirror-symmetric and transitive (lexicographic combination of the cell order
+    on each key, reversed for `desc`) — so a stable sort by it yields a sorted, well-defined result for every table -/
+theorem group_row_order_is_total (idxs : List Nat) (asc : List Bool) : IsOrd (groupedCmp idxs asc) :=
+  isOrd_groupedCmp idxs asc
+
 /-- numbers sort before everything that is no number, whatever their spellings: a cell that reads as a number
     is below a cell that does not, and the other way round above (`9 < 7z`, `10 < 7z`, never `7z < 9`) -/
 theorem number_before_text (x y : Str) (u : Num) (hx : parseF64? x = some u) (hy : parseF64? y = none) :
